@@ -6,7 +6,7 @@ import vlib, gen_nb, nbcfg
 from vlib import enc, dec, enc_diff, canon, plain, exc_class
 from checks import c02
 
-THEOREMS = c02.THEOREMS
+THEOREMS = c02.THEOREMS + ['Nbdime.join_splitLines']
 
 
 def impl_diffnb(a, b):
